@@ -139,7 +139,7 @@ void late_case(Ctx &c) { case_impl(c, true); }
 Registrar reg(Prop{
     "C16",
     "Cases: node id 1..127, timer frequency in {100, 1000, 10000, 1000000} Hz, initial 1005h (CAN-ID 80h/81h/100h, bit 30 set or not) and 1006h (0, below the resolution, 1..6 whole ticks); one synchronous TPDO of type 1..3 and one synchronous RPDO as witnesses; "
-    "histories of up to 200 ops: ticks and jumps onto the next due SYNC, SYNC and near-miss frames (DLC 0/1), SDO writes to 1005h (CAN-ID change while producing, start/stop) and 1006h (valid, 0, below the resolution), NMT commands, synchronous RPDO receptions, local writes. "
+    "histories of up to 200 ops: ticks and jumps onto the next due SYNC, SYNC and near-miss frames (DLC 0/1), SDO writes to 1005h (CAN-ID change while producing, start/stop) and 1006h (valid, 0, below the resolution), NMT commands, synchronous RPDO receptions, local writes; a third of the 1006h writes to a running producer are made while application timers occupy every other slot of the timer pool (re-timing needs no second slot). "
     "Oracle: reference model: a frame is SYNC iff id == CAN-ID of 1005h and the mode is PRE-OP/OP (else handed to the application); the producer emits a zero-length frame exactly every period from (re)activation, only in PRE-OP/OP; write verdicts incl. 0609 0030h with the previous value kept and independent of earlier refused writes; every SYNC advances the synchronous TPDO and applies the buffered RPDO exactly once. "
     "Non-trivial: >= 2 SYNCs produced and >= 1 accepted + >= 1 refused write. Distinct = distinct decoded choice sequence.",
     {Mode{"random", one_case, false, 1200000, 16000000, 0, 0, 260, 500},
